@@ -4,6 +4,8 @@
 //! increments n in [0, 2^31-1], all 2^32 wire values.
 
 use crate::engine::*;
+use crate::gen::dense_u32;
+use proptest::prelude::*;
 use rpki::rtr::state::Serial;
 use serde::{Deserialize, Serialize};
 use serde_json::json;
@@ -13,7 +15,7 @@ pub const RULE: &str = "enumeration, no sampling: sub-check cmp = for each base 
 thorough: 0,1,2^31-1,2^31,2^31+1,2^32-2,2^32-1,0x12345678 + 24 seed-derived) every d in [0,2^32): \
 Serial(b) vs Serial(b+d mod 2^32) in both directions and ==, oracle = RFC 1982 table on d; sub-check add = \
 every n in [0,2^31-1] per base; sub-check wire = every u32. A case is one chunk of 2^22 consecutive d (or n, \
-or values); non-trivial = evaluations with d != 0 (n != 0), distinct by construction of the enumeration \
+or values); sub-check pairs = random (a, b, n) from a boundary-dense strategy (b absolute or relative to a), same oracle, so that bases outside the enumerated set are sampled too; non-trivial = evaluations with d != 0 (n != 0), distinct by construction of the enumeration \
 (each (base,d) visited once), counted while enumerating.";
 
 const CHUNK_BITS: u32 = 22;
@@ -171,6 +173,43 @@ fn make_wire(_: Tier, _: u64, idx: u64) -> Chunk {
     Chunk { base: 0, start: idx * CHUNK, len: CHUNK }
 }
 
+/// Random pairs of arbitrary values: guards against a comparison that is wrong
+/// only for bases the enumeration does not visit.
+#[derive(Clone, Debug, Serialize, Deserialize)]
+pub struct Pair {
+    pub a: u32,
+    pub b: u32,
+    pub n: u32,
+}
+
+fn pair_strategy(_: Tier) -> BoxedStrategy<Pair> {
+    (dense_u32(), dense_u32(), any::<bool>(), prop_oneof![dense_u32(), Just(0x7FFF_FFFFu32)])
+        .prop_map(|(a, d, rel, n)| Pair { a, b: if rel { a.wrapping_add(d) } else { d }, n: n & 0x7FFF_FFFF })
+        .boxed()
+}
+
+fn run_pair(c: &Pair, obs: &mut Obs) -> CheckResult {
+    let (a, b) = (Serial(c.a), Serial(c.b));
+    let d = c.b.wrapping_sub(c.a);
+    let exp = expected(d);
+    ensure!(a.partial_cmp(&b) == exp, "Serial({}) vs Serial({}) (d={}): {:?} expected {:?}", c.a, c.b, d, a.partial_cmp(&b), exp);
+    ensure!(b.partial_cmp(&a) == exp.map(Ordering::reverse), "reverse of Serial({}) vs Serial({})", c.a, c.b);
+    ensure!((a == b) == (d == 0) && (a == c.b) == (d == 0), "== of Serial({}) and Serial({})", c.a, c.b);
+    ensure!((a < b) == (exp == Some(Ordering::Less)) && (a > b) == (exp == Some(Ordering::Greater))
+        && (a <= b) == matches!(exp, Some(Ordering::Less | Ordering::Equal))
+        && (a >= b) == matches!(exp, Some(Ordering::Greater | Ordering::Equal)),
+        "operators disagree with RFC 1982 for Serial({}) vs Serial({})", c.a, c.b);
+    let s = a.add(c.n);
+    ensure!(s.0 == c.a.wrapping_add(c.n), "Serial({}).add({}) = {:?}", c.a, c.n, s);
+    if c.n != 0 {
+        ensure!(s > a && a < s && s != a, "Serial({}).add({}) = {:?} is not strictly greater", c.a, c.n, s);
+    }
+    obs.nontrivial_if(d != 0);
+    obs.label_if(d == 0x8000_0000, "d=2^31");
+    obs.label_if((c.a as u64 + c.n as u64) > u32::MAX as u64, "add-wraps");
+    Ok(())
+}
+
 pub fn property() -> Property {
     Property {
         id: "C16",
@@ -183,6 +222,14 @@ pub fn property() -> Property {
             EnumSub { name: "cmp", count: count_cmp, make: make_cmp, run: run_cmp, exhaustive: true }.boxed(),
             EnumSub { name: "add", count: count_add, make: make_add, run: run_add, exhaustive: true }.boxed(),
             EnumSub { name: "wire", count: count_wire, make: make_wire, run: run_wire, exhaustive: true }.boxed(),
+            PropSub {
+                name: "pairs",
+                strategy: pair_strategy,
+                cases: |t| t.pick(8_000_000, 200_000_000),
+                run: run_pair,
+                floors: &[("d=2^31", 0.001), ("add-wraps", 0.02)],
+            }
+            .boxed(),
         ],
     }
 }
